@@ -568,7 +568,17 @@ def r10_static_tables_describe_the_runtime(ctx):
     r5_builtin_tables(ctx)
 
 
-RULES = [("C06-R1", r1_r2_r7), ("C06-R3", r3_args_index), ("C06-R4", r4_unchecked), ("C06-R5", r5_binding_expects), ("C06-R8", r8_unsigned_subtraction), ("C06-R9", r9_no_failing_index_in_string_builtins), ("C06-R10", r10_static_tables_describe_the_runtime)]
+def r11_more_shared_front_end_rules(ctx):
+    """Two more clauses other properties own whose violation ends in an interpreter panic on an accepted program: slice clamps
+    its bounds to [0, len] (C13-R2; clamp(min > max) panics), and the initialiser of a declaration is resolved before the
+    variable exists (C04-R4c; otherwise the runtime reads a variable that has no slot yet)."""
+    from .c13 import r2_slice_clamps
+    from .c04 import r4c_initialiser_sees_the_old_scope
+    r2_slice_clamps(ctx)
+    r4c_initialiser_sees_the_old_scope(ctx)
+
+
+RULES = [("C06-R1", r1_r2_r7), ("C06-R3", r3_args_index), ("C06-R4", r4_unchecked), ("C06-R5", r5_binding_expects), ("C06-R8", r8_unsigned_subtraction), ("C06-R9", r9_no_failing_index_in_string_builtins), ("C06-R10", r10_static_tables_describe_the_runtime), ("C06-R11", r11_more_shared_front_end_rules)]
 
 EXPLANATION = (
     "Static analysis of the type-checked MIR of every body reachable from Runtime::run/run_with_analysis in the script-facing "
@@ -579,6 +589,9 @@ EXPLANATION = (
     "argument list need a dominating length check. R4: get_unchecked needs an edge-dominating `idx < len` on the same vector. "
     "R5: expects on variable lookups. Decides the presence of these panic routes on every path of the code; does not decide "
     "arena exhaustion, panics inside std, or invariants of the analysis tables."
+)
+EXPLANATION += (
+    ' R11: two more clauses owned by other properties whose violation ends in an interpreter panic on an accepted program - slice clamps both bounds into [0, len] with min <= max (C13-R2), and the initialiser of a declaration is resolved before the variable exists (C04-R4c).'
 )
 ASSUMPTIONS = [
     "the resolver lets values of any run-time type reach any operand position (dynamic typing of parameters, index and member results) - re-derived by C09's tables",
